@@ -93,7 +93,7 @@ def main():
             dd = rep.decls[e['decl']]
             out['calls'] += 1
             kind, v = world.outcome('in', dd['name'], rep.resolved_alias(dd, e['args'], e['kwargs']), rep.captured(dd, e['args'], e['kwargs']))
-            exp = Outcome('exc', v('x')) if kind == 'raise' else Outcome('ret', v)
+            exp = Outcome('exc', v('x')) if kind == 'raise' else Outcome('ret', {'by_descriptor': v} if dd['kind'] == 'property_inner_sub' else v)
             got = call_outcome(e)
             cv = _captured_values(rep, dd, e['args'], e['kwargs'])
             if has_multi_set(cv):
